@@ -1,5 +1,7 @@
-(* C16 — layout is meaning-neutral: the parts proved about the scanner, the string primitives and the
-   table; the end-to-end relations are decided by the transformation oracle on the implementation
+(* C16 — layout is meaning-neutral.  Line endings (CRLF / LF / none on the last line) and the final line break:
+   end-to-end theorems (C16_crlf, C16_final_line_break, C16_terminators, at the end of this file).  Trailing
+   blanks, extra indentation, inserted blank / comment lines: lemmas about the scanner, the string primitives
+   and the table here; the end-to-end relations are decided by the transformation oracle on the implementation
    and by correspondence of layout variants (DESIGN 6.C16). *)
 From Coq Require Import List Bool Arith NArith.
 Import ListNotations.
@@ -36,3 +38,42 @@ Print Assumptions C16_indent.
 Theorem C16_blank_lines : blank_neutral Table.table = true.
 Proof. exact blank_neutral_ok. Qed.
 Print Assumptions C16_blank_lines.
+
+Require Import Kinds Automaton Matcher Builder Pipeline PipelineFacts BuilderErase TerminatorFacts ParamGlue LineEndings.
+
+(* CRLF line endings change nothing: for every source text, either error mode, any well-formed matcher state and
+   any builder state, parsing the CRLF rendering gives the same document -- or the same errors -- the same matcher
+   state afterwards and the same number of matcher calls (psim; the builder states may differ in the physical lines
+   of tokens still on the stack after a rejected parse).  Composition of: Paramcoq's relational parametricity of the
+   interpreter (kernel-checked), the matcher theorem (no line terminator is visible to any match_* method), the
+   builder theorem (the builder never reads a token's physical line) and "a blank line is never unexpected". *)
+Theorem C16_crlf : forall stop m b src, wf_ms m ->
+  psim (parse_source stop m b src) (parse_source stop m b (crlf src)).
+Proof. exact crlf_neutral. Qed.
+Print Assumptions C16_crlf.
+
+(* a final line break does not change the result *)
+Theorem C16_final_line_break : forall stop m b src, wf_ms m -> src <> [] -> last src 0%N <> LF ->
+  psim (parse_source stop m b (src ++ [LF])) (parse_source stop m b src).
+Proof. exact final_newline_neutral. Qed.
+Print Assumptions C16_final_line_break.
+
+(* the general form: any two token lists whose physical lines differ only in their runs of trailing CR / LF *)
+Theorem C16_terminators : forall stop toks toks' m b, wf_ms m -> list_R token token TRel toks toks' ->
+  psim (presult_of (parse_tokens stop toks m b)) (presult_of (parse_tokens stop toks' m b)).
+Proof. exact tokens_related. Qed.
+Print Assumptions C16_terminators.
+
+(* the AST builder never looks at the physical line of a token *)
+Theorem C16_builder_blind : forall t r b,
+  bout_map berase (builder_build t b) = builder_build (terase t) (berase b)
+  /\ bout_map berase (builder_end r b) = builder_end r (berase b)
+  /\ builder_result (berase b) = builder_result b.
+Proof. intros t r b. exact (conj (builder_build_erase t b) (conj (builder_end_erase r b) (builder_result_erase b))). Qed.
+Print Assumptions C16_builder_blind.
+
+(* no match_* method sees the terminator of the line it is given *)
+Theorem C16_matcher_blind : forall c n tl m t k, all_crlf tl -> MI m -> tk_line t = Some (make_line (c ++ tl) n) ->
+  mout_rel t (make_line c n) (matcher Dialects.dialects k m t) (matcher Dialects.dialects k m (with_line (make_line c n) t)).
+Proof. intros c n tl m t k Ht Hm Hl. exact (matcher_tail c n tl Ht m Hm t Hl k). Qed.
+Print Assumptions C16_matcher_blind.
